@@ -278,7 +278,25 @@ func (f *remoteWrapper) boundByGlobalLimit(limitItem proxyv1alpha1.RateLimitItem
 func (f *remoteWrapper) newFlowControl(limitItem proxyv1alpha1.RateLimitItemConfiguration, newType proxyv1alpha1.FlowControlSchemaType) GlobalCounterFlowControl {
 	f.flowControlCache.globalCounter.Stop(limitItem.Name)
 
-	fc := f.flowControlCache.newMeterFlowControl(toFlowControlSchema(limitItem))
+	// When only the strategy changes the limiter in force is kept and resized: it counts the
+	// requests in flight, a new one would admit its full size on top of them.
+	var fc flowcontrol.FlowControl
+	switch old := f.GlobalCounterFlowControl.(type) {
+	case *emptyGlobalWrapper:
+		fc = old.FlowControl
+	case *maxInflightWrapper:
+		fc = old.FlowControl
+	case *tokenBucketWrapper:
+		fc = old.FlowControl
+	}
+	switch {
+	case fc == nil || fc.Type() != newType:
+		fc = f.flowControlCache.newMeterFlowControl(toFlowControlSchema(limitItem))
+	case limitItem.MaxRequestsInflight != nil:
+		fc.Resize(uint32(limitItem.MaxRequestsInflight.Max), 0)
+	case limitItem.TokenBucket != nil:
+		fc.Resize(uint32(limitItem.TokenBucket.QPS), uint32(limitItem.TokenBucket.Burst))
+	}
 
 	var counterFun CounterFun
 	if limitItem.Strategy == proxyv1alpha1.GlobalCountLimit {
